@@ -696,6 +696,36 @@ Proof.
                          [exact Hi|rewrite st_set_st; exact Hbo|rewrite st_set_st; congruence|rewrite st_set_st; exact HGr|reflexivity]]; reflexivity.
 Qed.
 
+Lemma GRes_fields v2 s s' tg :
+  gt_users s' = gt_users s -> uts s' = uts s -> range s' = range s -> blacklisted s' = blacklisted s ->
+  GRes v2 s tg -> GRes v2 s' tg.
+Proof. intros E1 E2 E3 E4. unfold GRes, total_reserved, reserved. rewrite E1, E2, E3, E4. auto. Qed.
+
+(** the schedule setters: an accepted schedule is a valid one; nobody has been paid yet *)
+Theorem LpInv_sched1 e w a0 b0 c0 d0 p0 w' :
+  LpInv false w -> set_unlock_schedule_v1 e w a0 b0 c0 d0 p0 = Ok w' -> LpInv false w'.
+Proof.
+  intros Hi E. apply set_unlock_schedule_v1_ok in E. destruct E as (_ & _ & _ & Hok & Hs & Hb).
+  destruct Hi as [Htc Hcb HG Hbal Hdep Hsch Htok].
+  constructor; rewrite ?Hs, ?Hb; cbn; try assumption.
+  all: try (apply (GRes_fields false (st w)); [reflexivity..|exact HG]).
+  unfold sched_inv. cbn. split; [exact Hok|]. intros _ a. left. apply Hcb.
+Qed.
+
+Theorem LpInv_sched2 e w ls w' :
+  LpInv true w -> set_unlock_schedule_v2 e w ls = Ok w' -> LpInv true w'.
+Proof.
+  intros Hi E. unfold set_unlock_schedule_v2 in E.
+  apply bind_ok in E. destruct E as (u1 & _ & E). apply bind_ok in E. destruct E as (u2 & _ & E).
+  apply bind_ok in E. destruct E as (u3 & _ & E). apply bind_ok in E. destruct E as (u4 & _ & E).
+  apply bind_ok in E. destruct E as (u5 & Hv & E). apply require_ok' in Hv. inversion E; subst w'; clear E.
+  apply schedule_valid_v2_iff in Hv. destruct Hv as (_ & _ & _ & Hsum).
+  destruct Hi as [Htc Hcb HG Hbal Hdep Hsch Htok].
+  constructor; rewrite ?st_emit, ?st_set_st, ?bal_emit, ?bal_set_st; cbn; try assumption.
+  all: try (apply (GRes_fields true (st w)); [reflexivity..|exact HG]).
+  all: try (unfold sched_inv, schedule_v2; cbn; exact Hsum).
+Qed.
+
 Section HSetupVested.
 Variable H : list N -> list N.
 
@@ -805,7 +835,9 @@ Proof.
                             | w e b sd lx w' r _ IH Hsc E
                             | w e b sd la w' r _ IH Hsc E
                             | w e b sd la w' r _ IH Hsc E
-                            | w e b sd la w' r _ IH E].
+                            | w e b sd la w' r _ IH E
+                            | w e b sd a0 b0 c0 d0 p0 w' r _ IH E
+                            | w e b sd ls w' r _ IH E].
   - eapply deploy_LpInv; eauto.
   - eapply LpInv_exec_common; eauto.
   - set (w0 := w <| evs := [] |> <| rlog := [] |> <| locks := [] |> <| seeds := sd |>).
@@ -843,6 +875,20 @@ Proof.
     cbn [credit_payment bind] in E. cbn [dispatch] in E.
     destruct (has_unblacklist v); [|discriminate]. unfold ret0 in E. mon_inv.
     eapply LpInv_unblacklist; eauto.
+  - set (w0 := w <| evs := [] |> <| rlog := [] |> <| locks := [] |> <| seeds := sd |>).
+    assert (Hi0 : LpInv (vflag v) w0) by (eapply LpInv_ext; [| |exact IH]; reflexivity).
+    unfold exec in E. cbn [payable] in E. fold w0 in E.
+    apply bind_ok in E. destruct E as (u & Hnp & E). apply no_payment_nil in Hnp. rewrite Hnp in E.
+    cbn [credit_payment bind] in E. cbn [dispatch] in E.
+    destruct v; try discriminate. unfold ret0 in E. mon_inv.
+    eapply LpInv_sched1; eauto.
+  - set (w0 := w <| evs := [] |> <| rlog := [] |> <| locks := [] |> <| seeds := sd |>).
+    assert (Hi0 : LpInv (vflag v) w0) by (eapply LpInv_ext; [| |exact IH]; reflexivity).
+    unfold exec in E. cbn [payable] in E. fold w0 in E.
+    apply bind_ok in E. destruct E as (u & Hnp & E). apply no_payment_nil in Hnp. rewrite Hnp in E.
+    cbn [credit_payment bind] in E. cbn [dispatch] in E.
+    destruct v; try discriminate. unfold ret0 in E. mon_inv.
+    eapply LpInv_sched2; eauto.
 Qed.
 
 (** ** from deployment to the launchpad-token ledger of the claim period (gt1, gt2) *)
@@ -854,14 +900,41 @@ Theorem deployed_vested v w0 lf wf ef bf w1 ls ws es bs w2 sd rest ld wd ed bd w
   after_interrupted (select_winners H) ls w1 = Some ws -> select_winners H es bs ws = Ok (w2, 0) ->
   after_interrupted (distribute_guaranteed_tickets H (vflag v)) ld w2 = Some wd ->
   distribute_guaranteed_tickets H (vflag v) ed bd wd = Ok (w3, 0) ->
-  exists l : list (N * N), ClaimInv w3 (map fst l) /\ VInv (vflag v) w3 (map fst l) 0.
+  exists l : list (N * N), ClaimInv w3 (map fst l) /\ VInv (vflag v) w3 (map fst l) 0 /\
+                           pay_token (st w3) <> lp_token (st w3).
 Proof.
   intros Hv Hr Hdep Hprice Haf Ef Hs Has Es Had Ed.
   destruct (setup_reach_gt_PreG H v w0 Hv Hr) as [l [[Hsel _ _] Hg]]. exists l.
-  pose proof (setup_reach_gt_LpInv v w0 Hv Hr) as [Htc Hcb (Hres & _ & _) Hbal Hd Hsch _].
+  pose proof (setup_reach_gt_LpInv v w0 Hv Hr) as [Htc Hcb (Hres & _ & _) Hbal Hd Hsch Htok].
   rewrite Hdep in Hd.
-  eapply (pipeline_gt_vested H (vflag v) l w0 lf wf ef bf w1 ls ws es bs w2 sd rest ld wd ed bd w3); eauto.
-  rewrite Hd. unfold reserve_total. rewrite Hres. lia.
+  destruct (pipeline_gt_vested H (vflag v) l w0 lf wf ef bf w1 ls ws es bs w2 sd rest ld wd ed bd w3) as (A1 & A2 & A3 & A4); eauto.
+  - rewrite Hd. unfold reserve_total. rewrite Hres. lia.
+  - split; [exact A1|]. split; [exact A2|]. rewrite A3, A4. exact Htok.
+Qed.
+
+(** ... and any order of vesting claims and withdrawals afterwards; when everybody is paid and the
+    owner has withdrawn the contract holds neither payment nor launchpad tokens *)
+Theorem deployed_vested_drained v w0 lf wf ef bf w1 ls ws es bs w2 sd rest ld wd ed bd w3 w4 :
+  guar v -> setup_reach_gt H v w0 ->
+  deposited (st w0) = true -> 0 < price (st w0) ->
+  after_interrupted filter_tickets lf w0 = Some wf -> filter_tickets ef bf wf = Ok (w1, 0) ->
+  seeds w1 = sd :: rest ->
+  after_interrupted (select_winners H) ls w1 = Some ws -> select_winners H es bs ws = Ok (w2, 0) ->
+  after_interrupted (distribute_guaranteed_tickets H (vflag v)) ld w2 = Some wd ->
+  distribute_guaranteed_tickets H (vflag v) ed bd wd = Ok (w3, 0) ->
+  vsteps (vflag v) w3 w4 ->
+  exists l : list (N * N),
+    ClaimInv w4 (map fst l) /\ VInv (vflag v) w4 (map fst l) 0 /\
+    ((forall a, In a (map fst l) -> confirmed (st w4) a = 0) -> claimable_payment (st w4) = 0 ->
+     nr_winning (st w4) = 0 -> (forall a, In a (map fst l) -> outstanding (st w4) a = 0) -> surplus (st w4) = 0 ->
+     bal w4 sc_addr (pay_token (st w4)) 0 = 0 /\ bal w4 sc_addr (lp_token (st w4)) 0 = 0).
+Proof.
+  intros Hv Hr Hdep Hprice Haf Ef Hs Has Es Had Ed Hsteps.
+  destruct (deployed_vested v w0 lf wf ef bf w1 ls ws es bs w2 sd rest ld wd ed bd w3 Hv Hr Hdep Hprice Haf Ef Hs Has Es Had Ed)
+    as (l & Hci & Hvi & Htok).
+  exists l. destruct (VInv_steps _ _ _ _ _ Hci Hvi Htok Hsteps) as (B1 & B2 & _).
+  split; [exact B1|]. split; [exact B2|].
+  intros Hall Hcp Hn Hout Hsur. exact (VInv_steps_drained _ _ _ _ _ Hci Hvi Htok Hsteps Hall Hcp Hn Hout Hsur).
 Qed.
 
 (** the contracts with guarantees that pay at once (migration, locked-tokens-and-guaranteed-tickets):
@@ -878,7 +951,7 @@ Corollary deployed_cover_gt v w0 lf wf ef bf w1 ls ws es bs w2 sd rest ld wd ed 
 Proof.
   intros Hv Hr Hdep Hprice Haf Ef Hs Has Es Had Ed.
   destruct (deployed_vested v w0 lf wf ef bf w1 ls ws es bs w2 sd rest ld wd ed bd w3 Hv Hr Hdep Hprice Haf Ef Hs Has Es Had Ed)
-    as (l & Hci & Hvi).
+    as (l & Hci & Hvi & _).
   exists l. split; [exact Hci|]. unfold CoverInv. rewrite (vi_bal _ _ _ _ Hvi). lia.
 Qed.
 End HReachVested.
@@ -963,7 +1036,9 @@ Proof.
                             | w e b sd lx w' r _ IH Hsc E
                             | w e b sd la w' r _ IH Hsc E
                             | w e b sd la w' r _ IH Hsc E
-                            | w e b sd la w' r _ IH E].
+                            | w e b sd la w' r _ IH E
+                            | w e b sd a0 b0 c0 d0 p0 w' r _ IH E
+                            | w e b sd ls w' r _ IH E].
   - exists e, lp, tpt0, ptok, price0, nrw, conf, ws, claim, x, s. split; [exact Hd|].
     unfold deploy in Hd.
     destruct Hv as [-> | [-> | [-> | ->]]]; cbn [has_nft is_v1 has_lock has_extra negb] in Hd; mon_inv;
@@ -1013,5 +1088,23 @@ Proof.
     cbn [credit_payment bind] in E. cbn [dispatch] in E.
     destruct (has_unblacklist v); [|discriminate]. unfold ret0 in E. mon_inv.
     match goal with Hd2 : unblacklist_endpoint _ _ _ _ = Ok _ |- _ => apply (unblacklist_endpoint_reserve _ _ _ _ _ Hv) in Hd2; rewrite Hd2 end. first [exact Hrt|reflexivity].
+  - destruct IH as (e0 & lp & tpt0 & ptok & price0 & nrw & conf & ws & claim & x & s & Hd & Hrt).
+    exists e0, lp, tpt0, ptok, price0, nrw, conf, ws, claim, x, s. split; [exact Hd|].
+    set (w0 := w <| evs := [] |> <| rlog := [] |> <| locks := [] |> <| seeds := sd |>).
+    unfold exec in E. cbn [payable] in E. fold w0 in E.
+    apply bind_ok in E. destruct E as (u & Hnp & E). apply no_payment_nil in Hnp. rewrite Hnp in E.
+    cbn [credit_payment bind] in E. cbn [dispatch] in E.
+    destruct v; try discriminate. unfold ret0 in E. mon_inv.
+    match goal with Hd2 : set_unlock_schedule_v1 _ _ _ _ _ _ _ = Ok _ |- _ => apply set_unlock_schedule_v1_ok in Hd2; destruct Hd2 as (_ & _ & _ & _ & Hs2 & _); rewrite Hs2 end.
+    first [exact Hrt|reflexivity].
+  - destruct IH as (e0 & lp & tpt0 & ptok & price0 & nrw & conf & ws & claim & x & s & Hd & Hrt).
+    exists e0, lp, tpt0, ptok, price0, nrw, conf, ws, claim, x, s. split; [exact Hd|].
+    set (w0 := w <| evs := [] |> <| rlog := [] |> <| locks := [] |> <| seeds := sd |>).
+    unfold exec in E. cbn [payable] in E. fold w0 in E.
+    apply bind_ok in E. destruct E as (u & Hnp & E). apply no_payment_nil in Hnp. rewrite Hnp in E.
+    cbn [credit_payment bind] in E. cbn [dispatch] in E.
+    destruct v; try discriminate. unfold ret0 in E. mon_inv.
+    match goal with Hd2 : set_unlock_schedule_v2 _ _ _ = Ok _ |- _ => unfold set_unlock_schedule_v2 in Hd2; mon_inv end.
+    first [exact Hrt|reflexivity].
 Qed.
 End HTotal.
